@@ -105,6 +105,40 @@ def install_api(I):
         cls = interp.load_module("xdsl.dialects.memref").globals["MemRefValue"]
         return interp.call(cls, [type, rt_shape, rt_strides, rt_offset, rt_ptr], {})
 
+    def _tobv(x, w):
+        if isinstance(x, SV):
+            if x.is_bv:
+                if x.t.size() == w:
+                    return x.t
+                return z3.ZeroExt(w - x.t.size(), x.t) if x.t.size() < w else z3.Extract(w - 1, 0, x.t)
+            return z3.Int2BV(ops.zint(x), w)
+        return z3.BitVecVal(int(x), w)
+
+    def bv_const(interp, v, w):
+        return SV(_tobv(v, w))
+
+    def bv_shl(interp, a, b, w):
+        return SV(z3.simplify(_tobv(a, w) << _tobv(b, w)))
+
+    def bv_lshr(interp, a, b, w):
+        return SV(z3.simplify(z3.LShR(_tobv(a, w), _tobv(b, w))))
+
+    def bv_or(interp, a, b, w):
+        return SV(z3.simplify(_tobv(a, w) | _tobv(b, w)))
+
+    def bv_and(interp, a, b, w):
+        return SV(z3.simplify(_tobv(a, w) & _tobv(b, w)))
+
+    def bv_eq(interp, a, b, w):
+        return ops.simp(_tobv(a, w) == _tobv(b, w))
+
+    def bv_ult(interp, a, b, w):
+        return ops.simp(z3.ULT(_tobv(a, w), _tobv(b, w)))
+
+    def mk_ssa(interp, den_, type=None):
+        cls = interp.load_module("xdsl.ir").globals["SSAValue"]
+        return interp.call(cls, [den_, type], {})
+
     def rt_shape(interp, m, d):
         return interp.getitem(interp.getattr(m, "rt_shape"), d)
 
@@ -127,6 +161,9 @@ def install_api(I):
         fresh_int=NativeFn(fresh_int, "fresh_int"),
         unreachable=NativeFn(unreachable, "unreachable"),
         uf=NativeFn(uf, "uf"),
+        bv_const=NativeFn(bv_const, "bv_const"), bv_shl=NativeFn(bv_shl, "bv_shl"), bv_lshr=NativeFn(bv_lshr, "bv_lshr"),
+        bv_or=NativeFn(bv_or, "bv_or"), bv_and=NativeFn(bv_and, "bv_and"), bv_eq=NativeFn(bv_eq, "bv_eq"),
+        bv_ult=NativeFn(bv_ult, "bv_ult"), mk_ssa=NativeFn(mk_ssa, "mk_ssa"),
         rt_shape=NativeFn(rt_shape, "rt_shape"),
         rt_stride=NativeFn(rt_stride, "rt_stride"),
         den=NativeFn(den, "den"),
